@@ -894,7 +894,7 @@ func main() {
 			opMg(flat)
 		}
 		if g.r.Chance(1, 6) {
-			opSc(g.randWins(3, ext), ns)
+			opSc(g.randWins(3, ext)+fmt.Sprintf("_0+%d", int64(math.MaxInt64)), ns)
 		}
 		// manifestize with small batch sizes
 		batch := []int{2, 3, 2, 3, 1, 4, 5}[g.r.Intn(7)]
@@ -975,10 +975,25 @@ func main() {
 		opRf(6, 238, 3, "500", "1", "0+6", "0+6_2+3", []*node{{off: 0, size: 6, mtime: 1, vid: 3, key: 7, cookie: 1}})
 	}
 
-	// ---- sparse files through StreamContent
+	// ---- sparse files through StreamContent: random lists with bounded windows and the whole-file call (0, MaxInt64)
+	whole := fmt.Sprintf("_0+%d", int64(math.MaxInt64))
 	for i := 0; i < a.N(15); i++ {
 		ns := g.randList(1+g.r.Intn(5), 30, 8, false)
-		opSc(g.randWins(3, extent(ns)), ns)
+		opSc(g.randWins(3, extent(ns))+whole, ns)
+	}
+	// every list of 2 intervals over 0..5 (thorough: 3 over 0..4): every window up to 2 past the last position, and the whole file
+	{
+		k, p := 2, 5
+		if a.Thorough() {
+			k, p = 3, 4
+		}
+		exhaustive(k, p, func(ns []*node, idx int) {
+			if !a.Thorough() && uint64(idx)%2 != a.Seed%2 {
+				return
+			}
+			opSc(fmt.Sprintf("all.%d", p+2), ns)
+			opSc(whole[1:], ns)
+		})
 	}
 }
 
